@@ -182,7 +182,9 @@ func (s *V2Session) buildAndSend(ctx context.Context, c ipmi.Command) error {
 			s.confidentialityLayer,
 			&s.messageLayer,
 			serializableLayerOrEmpty(c.Request())); err != nil {
-			// this is not a retryable error
+			// this is not a retryable error; nothing was transmitted, so the
+			// sequence number has not been used
+			s.AuthenticatedSequenceNumbers.Inbound--
 			terminalErr = err
 			return nil
 		}
